@@ -93,6 +93,7 @@ type VC struct {
 	timeouts  int
 	assertSeen map[string]bool
 	ncell      int
+	funcGlobals map[*ssa.Global]*ssa.Function
 	modCapture *[]modCapture
 	modCache   map[*ssa.Function]*modInfo
 }
@@ -371,7 +372,7 @@ func (vc *VC) heapRead(st *State, name string, key Term) Term {
 					vc.asserts = append(vc.asserts, fmt.Sprintf("(forall ((q Ptr)) (! (=> (> (alloc q) %s) (= (select %s q) %s)) :pattern ((select %s q))))", b.S, r, z.S, r))
 				}
 			} else {
-				vc.asserts = append(vc.asserts, fmt.Sprintf("(=> (> (alloc %s) %s) (= (select %s %s) %s))", key.S, b.S, r, key.S, z.S))
+				vc.assume(Term{fmt.Sprintf("(=> (> (alloc %s) %s) (= (select %s %s) %s))", key.S, b.S, r, key.S, z.S), SBool})
 			}
 		}
 	}
